@@ -241,7 +241,7 @@ def c19_4(cx):
     cx.check(flags.get("anyone_waiting") == "const:1" and flags.get("is_transfer_target") == "const:1", "mark_as_transfer_target sets anyone_waiting and is_transfer_target", None, {"stores": flags}, key="mark-flags", body=cb)
 
 
-@ob("C19.5", ["C19", "C14", "C22", "C16"], "a SyncState removed (or a guard dropped) without release() leaves its waiters parked forever", kind="MUSTCALL+GUARDTYPE")
+@ob("C19.5", ["C19", "C14", "C22", "C16"], also=["C21"], nec="a SyncState removed (or a guard dropped) without release() leaves its waiters parked forever", kind="MUSTCALL+GUARDTYPE")
 def c19_5(cx):
     """Every OccupiedEntry::remove of a SyncState in function/sync.rs flows into ClaimGuard::release; Drop for ClaimGuard calls release_panicking when thread::panicking() else drop_impl; release_panicking removes the entry and releases with Cancelled iff local cancellation else Panicked; drop_impl releases with Completed (Default), release_self (SelfOnly) or transfer (TransferTo); ClaimGuard::drop(self) = drop_impl + forget."""
     n = 0
@@ -268,11 +268,12 @@ def c19_5(cx):
     rel = cx.one_call(p, SY + r"ClaimGuard::<'me>::release$", "release in release_panicking")
     cx.must_call(p, SY + r"ClaimGuard::<'me>::release$")
     w = cx.arg(rel, 2)
-    cx.flow(p, w, [r"^phi\{WaitResult::Cancelled\{\} \| WaitResult::Panicked\{\}\}$"], [r"WaitResult::Completed"], "an unwinding owner reports Cancelled or Panicked, never Completed", rel)
-    for s in p.aggregates(r"WaitResult$", "Cancelled"):
-        cx.only_if(p, s, CallIs(r"ZalsaLocal::should_trigger_local_cancellation$", True), "Cancelled only for a local cancellation")
-    for s in p.aggregates(r"WaitResult$", "Panicked"):
-        cx.only_if(p, s, CallIs(r"ZalsaLocal::should_trigger_local_cancellation$", False), "Panicked otherwise")
+    with cx.only("C19", "C14", "C21", "C22"):
+        cx.flow(p, w, [r"^phi\{WaitResult::Cancelled\{\} \| WaitResult::Panicked\{\}\}$"], [r"WaitResult::Completed"], "an unwinding owner reports Cancelled or Panicked, never Completed", rel)
+        for s in p.aggregates(r"WaitResult$", "Cancelled"):
+            cx.only_if(p, s, CallIs(r"ZalsaLocal::should_trigger_local_cancellation$", True), "Cancelled only for a local cancellation")
+        for s in p.aggregates(r"WaitResult$", "Panicked"):
+            cx.only_if(p, s, CallIs(r"ZalsaLocal::should_trigger_local_cancellation$", False), "Panicked otherwise")
     i = cx.fn(SY + r"ClaimGuard::<'me>::drop_impl$")
     mode = r"^\$1\.mode$"
     for rx, var in ((SY + r"ClaimGuard::<'me>::release$", "Default"), (SY + r"ClaimGuard::<'me>::release_self$", "SelfOnly"), (SY + r"ClaimGuard::<'me>::transfer$", "TransferTo")):
@@ -346,7 +347,7 @@ def c17_1(cx):
         cx.only_if(bt, s, VariantIn(r"thread_id_of_transferred_query\(", {"None"}), "Released only if the transfer chain no longer resolves")
 
 
-@ob("C17.3", ["C17", "C16"], "verifying (or handing to execute) a memo loaded BEFORE the claim misses the result a concurrent owner just inserted: the function body runs a second time in the same revision", kind="ORDER")
+@ob("C17.3", ["C17"], "verifying (or handing to execute) a memo loaded BEFORE the claim misses the result a concurrent owner just inserted: the function body runs a second time in the same revision", kind="ORDER")
 def c17_3(cx):
     """fetch_cold and maybe_changed_after_cold::inner load the memo after the successful claim (the load is control-dependent on ClaimResult::Claimed) and verify_memo precedes execute / Reexecute."""
     f = cx.fn(r"^function::fetch::<impl function::IngredientImpl<C>>::fetch_cold$")
